@@ -585,4 +585,164 @@ Proof.
   exact (incl_tran HSP' H).
 Qed.
 
+
+(* ------------------------------------------------------------------------------------------ *)
+(** * The loops: compute_maximal, the preferred counter-example loop *)
+
+Section Loops.
+Variable Bnd : nat.               (* bound on the number of SAT calls *)
+Variable FuelShort : Prop.        (* "the fuel given at the start was below what the bound asks for" *)
+Hypothesis HBnd : forall Ss Ps,
+  (forall S, In S Ss -> base S) -> sepl Ss -> (forall P, In P Ps -> maxc P) -> sepl Ps ->
+  length Ss + length Ps + 1 <= Bnd.
+
+Definition QAb (s' : Prog.st) : Prop := calls s' <= c0 + Bnd.
+Definition QPb (s' : Prog.st) : Prop := False.
+Definition QFb (s' : Prog.st) : Prop := calls s' <= c0 + Bnd /\ FuelShort.
+Notation wpb := (wp QAb QPb QFb).
+
+Lemma pot_le rel k s g : kinv rel k s g ->
+  pot g (c_state k) <= Bnd /\ (c_state k <> MNone -> pot g (c_state k) + 1 <= Bnd) /\
+  calls s <= c0 + Bnd.
+Proof.
+  intros (Hk & Hnd & Hc & Hcalls & HSs & HsepS & HPs & HsepP & Hst).
+  assert (H : length (gSs g) + length (gPs g) + 1 <= Bnd).
+  { apply HBnd; try assumption. intros P HP. now apply HPs. }
+  unfold pot in *. destruct (c_state k); repeat split; try lia; intros Hn; try lia; congruence.
+Qed.
+
+Lemma compute_maximal_spec rel fuel : forall k s g (Q : list nat -> Prog.st -> Prop),
+  kinv rel k s g ->
+  (c_state k = MInit \/ c_state k = MIntermediate \/ c_state k = MMaximal) ->
+  (Bnd <= fuel + pot g (c_state k) \/ FuelShort) ->
+  (forall k' s' g', kinv rel k' s' g' -> c_state k' = MMaximal ->
+     Q (c_cur k') (st_add s' [zlit selv])) ->
+  wpb (compute_maximal oracle fuel k) Q s.
+Proof.
+  induction fuel as [|f IH]; intros k s g Q Hi Hst Hfuel HQ; cbn [compute_maximal].
+  - rewrite wp_out_of_fuel. destruct (pot_le rel k s g Hi) as (H1 & H2 & H3). split; [exact H3|].
+    destruct Hfuel as [Hfuel|Hfs]; [exfalso|exact Hfs].
+    assert (c_state k <> MNone) by (destruct Hst as [H|[H|H]]; rewrite H; discriminate).
+    specialize (H2 H). lia.
+  - destruct (c_state k) eqn:Est.
+    + (* MMaximal: drop and return *)
+      unfold drop. destruct Hi as (Hk & Hi'). rewrite Hk at 1. cbn [c_sel kk].
+      rewrite wp_bind, wp_add_clause, wp_ret. apply (HQ k s g); [exact (conj Hk Hi')|exact Est].
+    + rewrite wp_bind. destruct (pot_le rel k s g Hi) as (H1 & H2 & H3).
+      apply (compute_next_spec QAb QPb QFb rel k s g); try assumption; rewrite Est; try discriminate.
+      * intros [H|H]; discriminate.
+      * intros s' Hs'. unfold QAb. rewrite Est in H2. specialize (H2 ltac:(discriminate)). lia.
+      * intros k' s' g' Hi' Hn Hp. apply (IH k' s' g' Q Hi'); [|destruct Hfuel as [Hf|Hf]; [left; lia|now right]|exact HQ].
+        cbn [next_ok] in Hn. destruct Hn as [Hn|Hn]; rewrite Hn; tauto.
+    + destruct Hst as [H|[H|H]]; discriminate.
+    + destruct Hst as [H|[H|H]]; discriminate.
+    + rewrite wp_bind. destruct (pot_le rel k s g Hi) as (H1 & H2 & H3).
+      apply (compute_next_spec QAb QPb QFb rel k s g); try assumption; rewrite Est; try discriminate.
+      * intros [H|H]; discriminate.
+      * intros s' Hs'. unfold QAb. rewrite Est in H2. specialize (H2 ltac:(discriminate)). lia.
+      * intros k' s' g' Hi' Hn Hp. apply (IH k' s' g' Q Hi'); [|destruct Hfuel as [Hf|Hf]; [left; lia|now right]|exact HQ].
+        cbn [next_ok] in Hn. rewrite Hn; tauto.
+Qed.
+
+(* ---------- the skeptical counter-example loop of the preferred solver ---------- *)
+Section DsLoop.
+Variable la : list nat.
+Variable shortcut : bool.
+Hypothesis Hfp : fl = FPref.
+
+Definition avoids_la (P : list nat) : Prop := meets la P = false.
+
+Definition attacks_all (cur : list nat) : bool :=
+  forallb (fun a => existsb (fun b => memb b cur) (attackers F a)) la.
+
+Definition ds_post (r : bool * option (list nat)) : Prop :=
+  match r with
+  | (true, None) => forall P, pr F P -> meets la P = true
+  | (false, Some ce) =>
+      base ce /\ NoDup ce /\ meets la ce = false /\
+      (pr F ce \/ (shortcut = true /\ attacks_all ce = true))
+  | _ => False
+  end.
+
+Lemma meets_incl (S T : list nat) : incl S T -> meets la S = true -> meets la T = true.
+Proof.
+  intros Hi Hm. apply meets_spec in Hm. destruct Hm as [a [Ha HaS]]. apply meets_spec.
+  exists a. split; [exact Ha|now apply Hi].
+Qed.
+
+Lemma dead_meets cur : adm F cur -> meets la cur = true -> dead avoids_la [cur].
+Proof.
+  intros Ha Hm B P [<-|[]] HP Hav HPc. unfold avoids_la in Hav.
+  assert (incl cur P) by (apply (proj2 HP); assumption).
+  rewrite (meets_incl cur P H Hm) in Hav. discriminate.
+Qed.
+
+Lemma pr_ds_loop_spec fuel : forall k s g,
+  kinv avoids_la k s g ->
+  (c_state k = MInit \/ c_state k = MIntermediate \/ c_state k = MMaximal \/ c_state k = MJustDiscarded) ->
+  (c_state k = MMaximal -> meets la (c_cur k) = true) ->
+  (Bnd <= fuel + pot g (c_state k) \/ FuelShort) ->
+  wpb (pr_ds_loop oracle fuel F la shortcut k) (fun r s' => ds_post r /\ calls s' <= c0 + Bnd) s.
+Proof.
+  assert (Hall : forall a, allowedb a = true) by (unfold fl_ok in Hfl; now rewrite Hfp in Hfl).
+  induction fuel as [|f IH]; intros k s g Hi Hst Hmm Hfuel; cbn [pr_ds_loop].
+  - rewrite wp_out_of_fuel. destruct (pot_le _ k s g Hi) as (H1 & H2 & H3). split; [exact H3|].
+    destruct Hfuel as [Hfuel|Hfs]; [exfalso|exact Hfs].
+    assert (c_state k <> MNone) by (destruct Hst as [H|[H|[H|H]]]; rewrite H; discriminate).
+    specialize (H2 H). lia.
+  - rewrite wp_bind. destruct (pot_le _ k s g Hi) as (H1 & H2 & H3).
+    assert (Hnn : c_state k <> MNone) by (destruct Hst as [H|[H|[H|H]]]; rewrite H; discriminate).
+    apply (compute_next_spec QAb QPb QFb avoids_la k s g _ Hi).
+    + intros _. exact Hfp.
+    + intros Hmx. apply dead_meets; [|now apply Hmm].
+      destruct Hi as (_ & _ & _ & _ & _ & _ & _ & _ & Hm). rewrite Hmx in Hm.
+      destruct Hm as (Bs0 & _ & Hmax & _). apply Hbase_adm. now apply maxc_base.
+    + exact Hnn.
+    + intros s' Hs'. unfold QAb. specialize (H2 Hnn). lia.
+    + intros k' s' g' Hi' Hn Hp.
+      assert (Hfuel' : Bnd <= f + pot g' (c_state k') \/ FuelShort)
+        by (destruct Hfuel as [Hf|Hf]; [left; lia|now right]).
+      assert (Hk' : k' = kk (c_cur k') (c_model k') (c_state k')) by exact (proj1 Hi').
+      assert (Hdrop : forall r, ds_post r ->
+                wpb (drop k';;; ret r) (fun r s'0 => ds_post r /\ calls s'0 <= c0 + Bnd) s').
+      { intros r Hr. unfold drop. rewrite wp_bind, wp_add_clause, wp_ret. split; [exact Hr|].
+        destruct (pot_le _ k' s' g' Hi') as (_ & _ & H3'). cbn. exact H3'. }
+      assert (Hnx : c_state k' = MIntermediate \/ c_state k' = MMaximal \/ c_state k' = MNone).
+      { destruct (c_state k); cbn [next_ok] in Hn; tauto. }
+      destruct (c_state k') eqn:Est'.
+      * (* MMaximal *)
+        destruct (meets la (c_cur k')) eqn:Hmeet; cbn [negb].
+        -- apply (IH k' s' g' Hi'); rewrite Est'; try tauto.
+        -- apply Hdrop. cbn [ds_post].
+           destruct Hi' as (_ & Hnd' & _ & _ & _ & _ & _ & _ & Hm). rewrite Est' in Hm.
+           destruct Hm as (Bs0 & _ & Hmax & _). split; [now apply maxc_base|]. split; [exact Hnd'|].
+           split; [exact Hmeet|]. left. now apply maxc_pr.
+      * (* MIntermediate *)
+        pose proof Hi' as (_ & Hnd' & _ & _ & _ & _ & _ & _ & Hm). rewrite Est' in Hm.
+        destruct Hm as ([Hb' _] & _).
+        destruct (meets la (c_cur k')) eqn:Hmeet.
+        -- rewrite wp_bind.
+           apply (discard_current_spec QAb QPb QFb avoids_la k' s' g' _ Hi' Est' Hfp).
+           ++ apply dead_meets; [now apply Hbase_adm|exact Hmeet].
+           ++ intros k2 s2 g2 Hi2 Est2 Hcur2 Hp2. apply (IH k2 s2 g2 Hi2); rewrite Est2; try tauto.
+              ** discriminate.
+              ** destruct Hfuel' as [Hf|Hf]; [left; lia|now right].
+        -- fold (attacks_all (c_cur k')).
+           destruct (shortcut && attacks_all (c_cur k')) eqn:Esc.
+           ++ apply Hdrop. cbn [ds_post]. split; [exact Hb'|]. split; [exact Hnd'|].
+              split; [exact Hmeet|]. right. now apply andb_prop in Esc.
+           ++ apply (IH k' s' g' Hi'); rewrite Est'; try tauto. discriminate.
+      * destruct Hnx as [H|[H|H]]; discriminate.
+      * (* MNone *)
+        apply Hdrop. cbn [ds_post]. intros P HP.
+        destruct (meets la P) eqn:HmP; [reflexivity|exfalso].
+        destruct Hi' as (_ & _ & _ & _ & _ & _ & _ & _ & Hm). rewrite Est' in Hm.
+        destruct Hm as (Hdead & Hcov). destruct (Hcov P (Hpr_base P HP)) as [B [HB HPB]].
+        exact (Hdead B P HB HP HmP HPB).
+      * destruct Hnx as [H|[H|H]]; discriminate.
+Qed.
+
+End DsLoop.
+End Loops.
+
 End Core.
